@@ -117,6 +117,12 @@ func getFloatToIntFunction() schema.CallableFunction {
 				return math.MinInt64, nil
 			case math.IsNaN(a):
 				return math.MinInt64, fmt.Errorf("attempted to convert a NaN float to an integer")
+			case a >= math.MaxInt64:
+				// Finite values at or above 2^63 saturate like +Inf instead of
+				// relying on the platform-specific out-of-range conversion.
+				return math.MaxInt64, nil
+			case a <= math.MinInt64:
+				return math.MinInt64, nil
 			}
 			return int64(a), nil
 		},
